@@ -264,6 +264,10 @@ func TestC05(t *testing.T) {
 		}
 		c06Rewind(r, caseID, rng(r, "c05fork", i), true)
 	})
+	r.Set("removed_twin_logs_served_after_their_valid_copy", int(twinLogs.Load()))
+	if twinLogs.Load() == 0 && !r.Replaying() {
+		r.Inconclusive("no removed twin log was generated")
+	}
 	finish(t, r, r.N(40, 80), "static/*", "dyn/*", "l1sync/*", "rewind/replace*")
 }
 
